@@ -26,6 +26,8 @@ type Values struct {
 	Status uint32    // SMPP only
 	Seq    [3]uint32 // SGIP: all three words; others: Seq[2]
 	F      map[string]any
+	// Raw: fields whose struct representation is hex (SMGP MsgID) are given to the encoder as the raw octets instead
+	Raw map[string]bool
 }
 
 func (v *Values) U(spec string) uint64 {
